@@ -1,10 +1,12 @@
 package harness
 
 // Model "txfee" (C08): fee accounting of ONE transaction.  Every op line is one really signed
-// transaction run through the REAL app: state is prepared in the block being built, the block
-// is committed, the tx goes through `CheckTx` (mempool admission, on the committed state) and
+// transaction run through the REAL app: state is prepared in the block being built (the set-up
+// fee configuration written straight into the store, then — `gov=` — governance proposals executed
+// through the real x/msgfees message handlers, see txfee_gov_test.go), the block is committed, the tx goes through `CheckTx` (mempool admission, on the committed state) and
 // then — for ops with `re=1` — a block without the tx is committed that changes the msgfees
-// params / schedule and the tx goes through `CheckTx(Recheck)` on the newly committed state, and
+// params / schedule (a straight rewrite and/or governance proposals `gov2=`) and the tx goes
+// through `CheckTx(Recheck)` on the newly committed state, and
 // then through `FinalizeBlock` (ante chain, PioMsgServiceRouter, MsgFeeInvoker).  The output is
 // the result class of both and the balance deltas of every account involved.
 
@@ -14,6 +16,7 @@ import (
 	"strconv"
 	"strings"
 	"testing"
+	"time"
 
 	abci "github.com/cometbft/cometbft/abci/types"
 	cmtproto "github.com/cometbft/cometbft/proto/tendermint/types"
@@ -63,9 +66,11 @@ type txfeeEnv struct {
 	nextAcc uint64
 	nkey    uint64
 	seed    uint64
-	sched   []string // type urls set by the previous case
 	ncase   int
 	collect sdk.AccAddress
+	gkey    *secp256k1.PrivKey // genesis account: the validator's delegator (votes on proposals)
+	gaddr   sdk.AccAddress
+	now     time.Time // block time (moves on with every block; governance needs it)
 }
 
 var txfeeE *txfeeEnv
@@ -86,7 +91,8 @@ func txfeeNewEnv(t *testing.T) *txfeeEnv {
 	bal := banktypes.Balance{Address: acc.GetAddress().String(),
 		Coins: sdk.NewCoins(sdk.NewInt64Coin(sdk.DefaultBondDenom, 100_000_000_000_000))}
 	a := app.SetupWithGenesisValSet(t, ChainID, valSet, []authtypes.GenesisAccount{acc}, bal)
-	e := &txfeeEnv{t: t, app: a, height: a.LastBlockHeight() + 1, nextAcc: 1_000_000}
+	e := &txfeeEnv{t: t, app: a, height: a.LastBlockHeight() + 1, nextAcc: 1_000_000, gkey: gk, gaddr: acc.GetAddress(),
+		now: time.Date(2024, 1, 1, 0, 0, 0, 0, time.UTC)}
 	e.collect = authtypes.NewModuleAddress(authtypes.FeeCollectorName)
 	return e
 }
@@ -140,11 +146,20 @@ type txfeeOp struct {
 	// re: the transaction's life spans a committed change of the fee configuration:
 	// CheckTx(New) under floor/conv/sched, then a block WITHOUT the tx is committed that sets
 	// floor2/conv2/sched2, then CheckTx(Recheck), then execution under the new configuration.
-	re     bool
-	floor2 sdk.Coin
-	convD2 string
-	convR2 uint64
-	sched2 []txfeeSched
+	// The change is a straight rewrite of params + schedule (`direct2`: floor2/conv2/sched2 — the
+	// only way the floor price can change) and/or governance proposals (`gov2`).
+	re      bool
+	direct2 bool
+	floor2  sdk.Coin
+	convD2  string
+	convR2  uint64
+	sched2  []txfeeSched
+	gov2    [][]txfeeGovMsg
+	// gov: proposals that pass and are executed (real msgfees handlers) after the chain was set
+	// up with floor/conv/sched and before the transaction arrives.  gv: r = routed like gov's
+	// EndBlocker does, v = whole proposal lives (submit, vote, voting period, EndBlocker).
+	gov [][]txfeeGovMsg
+	gv  string
 }
 
 func txfeeCoins(s string) (sdk.Coins, error) {
@@ -220,8 +235,18 @@ func txfeeParse(line string) (*txfeeOp, error) {
 	if op.sched, err = txfeeParseSched(kvArg(ws, "sched")); err != nil {
 		return nil, err
 	}
+	if op.gov, err = txfeeParseGov(kvArg(ws, "gov")); err != nil {
+		return nil, err
+	}
+	op.gv = kvArg(ws, "gv")
 	if kvArg(ws, "re") == "1" {
 		op.re = true
+		if op.gov2, err = txfeeParseGov(kvArg(ws, "gov2")); err != nil {
+			return nil, err
+		}
+	}
+	if op.re && kvArg(ws, "floor2") != "" {
+		op.direct2 = true
 		if op.floor2, err = txfeeCoin(kvArg(ws, "floor2")); err != nil {
 			return nil, err
 		}
@@ -266,8 +291,20 @@ func (op *txfeeOp) line() string {
 	l := fmt.Sprintf("tx floor=%s conv=%s:%d sched=%s payfee=%s fee=%s gas=%d balP=%s balG=%s balX=%s fg=%s allow=%s auth=%s sig=%s force=%s body=%s",
 		op.floor.Amount.String()+op.floor.Denom, op.convD, op.convR, txfeeSchedStr(op.sched), op.payfee, txfeeCoinsStr(op.fee), op.gas,
 		txfeeCoinsStr(op.bal["P"]), txfeeCoinsStr(op.bal["G"]), txfeeCoinsStr(op.bal["X"]), b(op.fg), op.allow, b(op.auth), op.sig, b(op.force), op.rawBody)
+	if len(op.gov) > 0 {
+		l += " gov=" + txfeeGovStr(op.gov)
+	}
+	if len(op.gov) > 0 || len(op.gov2) > 0 {
+		l += " gv=" + op.gv
+	}
 	if op.re {
-		l += fmt.Sprintf(" re=1 floor2=%s conv2=%s:%d sched2=%s", op.floor2.Amount.String()+op.floor2.Denom, op.convD2, op.convR2, txfeeSchedStr(op.sched2))
+		l += " re=1"
+		if op.direct2 {
+			l += fmt.Sprintf(" floor2=%s conv2=%s:%d sched2=%s", op.floor2.Amount.String()+op.floor2.Denom, op.convD2, op.convR2, txfeeSchedStr(op.sched2))
+		}
+		if len(op.gov2) > 0 {
+			l += " gov2=" + txfeeGovStr(op.gov2)
+		}
 	}
 	return l
 }
@@ -382,15 +419,14 @@ func (e *txfeeEnv) prepare(op *txfeeOp, k *txfeeKeys) {
 	ctx.MultiStore().(storetypes.CacheMultiStore).Write()
 }
 
-// setFeeCfg writes msgfees params and the message-fee schedule (what a passed governance
-// proposal does) into the block being built.
+// setFeeCfg writes msgfees params and the message-fee schedule straight into the block being
+// built (what genesis or an upgrade handler does).
 func (e *txfeeEnv) setFeeCfg(ctx sdk.Context, k *txfeeKeys, floor sdk.Coin, convD string, convR uint64, sched []txfeeSched) {
 	a := e.app
 	a.MsgFeesKeeper.SetParams(ctx, msgfeestypes.Params{FloorGasPrice: floor, NhashPerUsdMil: convR, ConversionFeeDenom: convD})
-	for _, u := range e.sched {
+	for _, u := range txfeeTypeURL {
 		_ = a.MsgFeesKeeper.RemoveMsgFee(ctx, u)
 	}
-	e.sched = nil
 	for _, s := range sched {
 		rcp := ""
 		if s.rcp != "-" {
@@ -400,7 +436,6 @@ func (e *txfeeEnv) setFeeCfg(ctx sdk.Context, k *txfeeKeys, floor sdk.Coin, conv
 		if err := a.MsgFeesKeeper.SetMsgFee(ctx, msgfeestypes.NewMsgFee(u, s.fee, rcp, s.bips)); err != nil {
 			e.t.Fatalf("SetMsgFee: %v", err)
 		}
-		e.sched = append(e.sched, u)
 	}
 }
 
@@ -546,7 +581,8 @@ func (e *txfeeEnv) balances(ctx sdk.Context, k *txfeeKeys) map[string]sdk.Coins 
 
 func (e *txfeeEnv) finalize(txs [][]byte) *abci.ResponseFinalizeBlock {
 	e.height++
-	res, err := e.app.FinalizeBlock(&abci.RequestFinalizeBlock{Height: e.height, Txs: txs})
+	e.now = e.now.Add(6 * time.Second)
+	res, err := e.app.FinalizeBlock(&abci.RequestFinalizeBlock{Height: e.height, Txs: txs, Time: e.now})
 	if err != nil {
 		e.t.Fatalf("FinalizeBlock: %v", err)
 	}
@@ -557,6 +593,8 @@ func (e *txfeeEnv) finalize(txs [][]byte) *abci.ResponseFinalizeBlock {
 func (e *txfeeEnv) run(op *txfeeOp) (obs string, outp string) {
 	k := e.freshKeys()
 	e.prepare(op, k)
+	gov1 := e.runGov(k, op.gv, op.floor, op.gov)
+	cfg1 := e.cfgDump(e.dctx(), k)
 	if _, err := e.app.Commit(); err != nil {
 		e.t.Fatalf("Commit: %v", err)
 	}
@@ -588,11 +626,18 @@ func (e *txfeeEnv) run(op *txfeeOp) (obs string, outp string) {
 	// a committed block (without the tx) changes the fee configuration; CometBFT then rechecks
 	// every transaction still in its mempool on the committed state
 	recheck, rchg, obsR := "skip", "-/-", ""
+	gov2, cfg2 := "-", "-"
 	if op.re && admitted {
 		e.finalize(nil)
-		ctx2 := e.dctx()
-		e.setFeeCfg(ctx2, k, op.floor2, op.convD2, op.convR2, op.sched2)
-		ctx2.MultiStore().(storetypes.CacheMultiStore).Write()
+		floorNow := op.floor
+		if op.direct2 {
+			ctx2 := e.dctx()
+			e.setFeeCfg(ctx2, k, op.floor2, op.convD2, op.convR2, op.sched2)
+			ctx2.MultiStore().(storetypes.CacheMultiStore).Write()
+			floorNow = op.floor2
+		}
+		gov2 = e.runGov(k, op.gv, floorNow, op.gov2)
+		cfg2 = e.cfgDump(e.dctx(), k)
 		if _, err := e.app.Commit(); err != nil {
 			e.t.Fatalf("Commit: %v", err)
 		}
@@ -655,7 +700,8 @@ func (e *txfeeEnv) run(op *txfeeOp) (obs string, outp string) {
 	}
 	before := map[string]sdk.Coins{"P": sdk.NewCoins(op.bal["P"]...), "G": sdk.NewCoins(op.bal["G"]...), "X": sdk.NewCoins(op.bal["X"]...)}
 	var sb strings.Builder
-	fmt.Fprintf(&sb, "check=%s cchg=%s recheck=%s rchg=%s deliver=%s seq=%d allow=%s", check, cchg, recheck, rchg, dres, seq, allow)
+	fmt.Fprintf(&sb, "gov=%s cfg=%s check=%s cchg=%s recheck=%s rchg=%s gov2=%s cfg2=%s deliver=%s seq=%d allow=%s",
+		gov1, cfg1, check, cchg, recheck, rchg, gov2, cfg2, dres, seq, allow)
 	for _, r := range []string{"P", "G", "X", "Q", "R1", "R2", "C"} {
 		fmt.Fprintf(&sb, " %s=%s", r, txfeeDelta(after[r], before[r]))
 	}
@@ -715,6 +761,11 @@ func (e *txfeeEnv) emit(out *Out, op *txfeeOp) {
 	for _, w := range strings.Fields(res) {
 		if strings.HasPrefix(w, "check=") || strings.HasPrefix(w, "deliver=") || strings.HasPrefix(w, "recheck=") {
 			out.Count(w)
+		}
+		if (strings.HasPrefix(w, "gov=") || strings.HasPrefix(w, "gov2=")) && !strings.HasSuffix(w, "=-") {
+			for _, f := range strings.Split(w[strings.Index(w, "=")+1:], "/") {
+				out.Count("proposal:" + f)
+			}
 		}
 	}
 }
